@@ -162,10 +162,22 @@ def check_combo(chk, c, seed_, recover):
             got_v = {lab: res2.optimized_parameters.get(lab).value for lab in labels}
             want_v = {lab: true.get(lab).value for lab in labels}
             rates = sorted(lab for lab in labels if lab.startswith("k."))
-            for lab, a, b in [(lab, got_v[lab], want_v[lab]) for lab in labels if lab not in rates] + \
-                             [("rates (sorted)", a, b) for a, b in zip(sorted(got_v[r] for r in rates), sorted(want_v[r] for r in rates))]:
-                if abs(a - b) > 1e-4 * max(1.0, abs(b)):
-                    chk.violation(f"Combos[not recovered from 10% perturbation]: {key_c}", f"parameter {lab}: truth {b}, recovered {a}", rep)
+            off = [(lab, a, b) for lab, a, b in [(lab, got_v[lab], want_v[lab]) for lab in labels if lab not in rates] +
+                   [("rates (sorted)", a, b) for a, b in zip(sorted(got_v[r] for r in rates), sorted(want_v[r] for r in rates))]
+                   if abs(a - b) > 1e-4 * max(1.0, abs(b))]
+            if off:
+                # "an identifiable model returns": judged only where that is decidable.  A run that used up its evaluation budget has not
+                # terminated; a run that reached zero residual at other parameters shows the combination is not identifiable (flat direction).
+                zero = float(res2.cost) <= 1e-18 * max(1.0, norm * norm)
+                spent = int(res2.number_of_function_evaluations) >= 60
+                if zero:
+                    chk.skip("recovery: zero residual reached at other parameters (combination not identifiable)", 1)
+                elif spent:
+                    chk.skip("recovery: evaluation budget used up before convergence", 1)
+                else:
+                    lab, a, b = off[0]
+                    chk.violation(f"Combos[not recovered from 10% perturbation]: {key_c}",
+                                  f"the optimiser terminated ({res2.termination_reason}) at cost {float(res2.cost):.3g} with parameter {lab}: truth {b}, recovered {a}", rep)
                     return
     if int(c["nds"]) > 1 or sum(c[k] == "yes" for k in ("baseline", "osc", "artifact")) >= 1 or c["glob"] == "spectral":
         chk.nontriv("combo:" + key_c)
@@ -190,7 +202,12 @@ def run(chk, tier, rng):
     pick = combos if n >= len(combos) else rng.sample(combos, n)
     for i, c in enumerate(pick):
         check_combo(chk, c, 1000 + i, recover=False)
-    for i, c in enumerate(RECOVER[:2] if tier == "quick" else RECOVER + rng.sample(combos, 20)):
+    # recovery from a 10 % perturbation is asserted for combinations whose objective has a single basin there: a 10 % change of an
+    # oscillation frequency moves the phase by several pi over the time window (the sum of squares of a sinusoid fit is multi-modal in the
+    # frequency), so combinations with a damped oscillation are not judged for recovery (seen in the thorough tier: termination by ftol in
+    # a local minimum at cost 0.64)
+    unimodal = [c for c in combos if c.get("osc") != "yes"]
+    for i, c in enumerate(RECOVER[:2] if tier == "quick" else RECOVER + rng.sample(unimodal, min(20, len(unimodal)))):
         check_combo(chk, c, 5000 + i, recover=True)
     chk.sample({"builtin_combo": pick[0]})
 
